@@ -120,7 +120,7 @@ PROPS = {
         ]),
     'C01': dict(
         witness=[dict(append_to='tonic/src/codec/decode.rs', module='replay/decode_witness.rs', crate='tonic', filter='verif_witness_decode', features=['--features', 'gzip,deflate,zstd']), dict(append_to='tonic/src/codec/encode.rs', module='replay/encode_witness.rs', crate='tonic', filter='verif_witness_encode', features=['--features', 'gzip,deflate,zstd'])],
-        units=['wire', 'encode', 'decode', 'compression', 'prostcodec'], level='proof',
+        units=['wire', 'encode', 'decode', 'compression', 'prostcodec', 'codecbuf'], level='proof',
         not_covered=[
             'gzip/deflate/zstd coders are inverses of their decoders (flate2/zstd FFI): axioms A-compress-01/04; that compress()/decompress() call the coder NAMED by the encoding and append exactly its output is proved on the real bodies (unit compression)',
             'the codec contracts A-codec-01 / A-codec-03 (decode reads the whole payload and never answers Ok(None); encode appends exactly ser(item)) are assumed of an arbitrary user codec in units encode / decode and PROVED for tonic\'s own ProstCodec in unit prostcodec, relative to prost being an inverse pair (A-prost-10) that reads all remaining bytes (A-prost-15)',
@@ -129,7 +129,7 @@ PROPS = {
         ]),
     'C03': dict(
         witness=[dict(append_to='tonic/src/codec/encode.rs', module='replay/encode_witness.rs', crate='tonic', filter='verif_witness_encode', features=['--features', 'gzip,deflate,zstd'])],
-        units=['wire', 'encode', 'status', 'reqresp', 'compression', 'clientglue', 'serverglue', 'prostcodec'], level='proof',
+        units=['wire', 'encode', 'status', 'reqresp', 'compression', 'clientglue', 'serverglue', 'prostcodec', 'codecbuf'], level='proof',
         not_covered=[
             'the request head (POST, HTTP/2, te, content-type, path under the origin) is proved on the real GrpcConfig::prepare_request (unit clientglue), the response head on the real server Grpc::map_response / Status::into_http (unit serverglue, status); the generated code that picks the path string is not covered',
             'that compress() uses the coder named in grpc-encoding (FFI)', 'HTTP/2 serialisation of heads and trailers (hyper/h2)',
@@ -141,11 +141,11 @@ PROPS = {
         ),
     'C07': dict(
         witness=[dict(append_to='tonic/src/codec/decode.rs', module='replay/decode_witness.rs', crate='tonic', filter='verif_witness_decode', features=['--features', 'gzip,deflate,zstd'])],
-        units=['decode', 'compression', 'prostcodec'], level='proof',
+        units=['decode', 'compression', 'prostcodec', 'codecbuf'], level='proof',
         not_covered=[
             '"every poll completes" is decided only as safety: each loop iteration of Streaming::poll_next either returns or polls the body exactly once; termination under a body that yields frames forever is liveness and not claimed',
             'compressed garbage: decompress() is behind contract A-compress-02 (flate2/zstd are FFI)',
             'undecodable payloads: an arbitrary Decoder is behind codec contract A-codec-01; for the default ProstDecoder the contract is proved (unit prostcodec: a payload prost refuses is an INTERNAL status, never Ok(None), never a panic) relative to prost (A-prost-10/15)',
-            'DecodeBuf::{chunk,advance,copy_to_bytes} asserts are the decoder implementation\'s obligations',
+            'DecodeBuf::{remaining, chunk, advance, copy_to_bytes} are under contract (unit codecbuf: they present exactly the first len bytes and consume them from the front); their assert!s are preconditions, i.e. the obligations of the decoder implementation that calls them',
         ]),
 }
